@@ -347,7 +347,7 @@ func init() {
 		Setup: func(tier string, seed uint64) int {
 			c12.seed, c12.tier = seed, tier
 			c12buildGrids(true)
-			return len(c12.grids) + map[string]int{"quick": 6000, "thorough": 300000}[tier]
+			return len(c12.grids) + map[string]int{"quick": 6000, "thorough": 1000000}[tier]
 		},
 		Run:           c12run,
 		Describe:      func(idx int) any { n, p := c12get(idx); return map[string]any{"sig": n, "program": n, "steps": len(p)} },
